@@ -362,6 +362,47 @@ def Ctx.paramNames (x : Ctx) (chains : List Chain) : List String :=
       else (st.1 ++ complexNames (decayHead d ++ "_g_ls") (x.ls d).length, st.2 ++ [d])) (st.1 ++ tot, st.2)
   res ++ (chains.foldl step ([], [])).1
 
+/-! ## export: `DecayGroup.as_config` restricted to what the loader reads back
+(J, P, C, mass, width of every particle; `p_break`, `c_break` of every decay — `l_list` / `ls_list` are constructor
+arguments of `HelicityDecay` and are NOT part of the export) -/
+
+def exportDict (props : List (Name × PDict)) (n : Name) : PDict :=
+  let r := renameParams ((getKV props n).getD [])
+  let q := qnOfName props n
+  [("J", .spin q.j2),
+   ("P", match q.p with | some i => .int i | none => .none),
+   ("C", match q.c with | some i => .int i | none => .none),
+   ("mass", (getKV r "mass").getD .none), ("width", (getKV r "width").getD .none)]
+
+/-- `config["decay"][core].append([outs…, {p_break, c_break, …}])` -/
+def appendDecay (acc : List (Name × List (List DItem))) (k : Name) (v : List DItem) : List (Name × List (List DItem)) :=
+  match acc with
+  | [] => [(k, [v])]
+  | (k', vs) :: r => if k' = k then (k', vs ++ [v]) :: r else (k', vs) :: appendDecay r k v
+
+def Ctx.exportDecays (x : Ctx) (chains : List Chain) : List (Name × List (List DItem)) :=
+  (chains.flatMap id).foldl (fun acc d =>
+    let o := x.optOf d
+    appendDecay acc d.core [.name d.o1, .name d.o2,
+      .opt { pBreak := some (o.pBreak.getD false), cBreak := some (o.cBreak.getD true) }]) []
+
+/-- `DecayGroup.as_config()` of the loaded group as a card (`$top`, `$finals` in dict form, `outs` sorted) -/
+def Ctx.asConfig (x : Ctx) (top : Name) (chains : List Chain) : Card :=
+  let outs := match chains with
+    | [] => []
+    | c :: _ => sortNames (chainLeaves c)
+  { top := top, topDict := some (exportDict x.props top)
+    finals := outs, finalsDict := some (outs.map fun n => (n, exportDict x.props n))
+    includes := []
+    particle := (resonances chains).map fun n => .props n (exportDict x.props n)
+    decay := (x.exportDecays chains).map fun kv => (kv.1, .nested kv.2) }
+
+/-- export then load -/
+def Card.roundTrip (c : Card) : Outcome :=
+  match c.expand with
+  | .raise w => .raise w
+  | .ok ctx chains => (ctx.asConfig c.top chains).expand
+
 /-! ## line protocol -/
 
 def parseNat (s : String) : Option Nat := s.toNat?
@@ -471,6 +512,12 @@ def handle : List String → Option String
     match parseCard ws with
     | none => some "parse-error"
     | some card =>
+      if op == "rt" then
+        match card.roundTrip with
+        | .raise w => some ("raise:" ++ w)
+        | .ok ctx chains => some ("|".intercalate (chains.map showChain) ++ " # " ++
+            "|".intercalate (chains.map fun c => ";".intercalate (c.map fun d => showLs (ctx.ls d))))
+      else
       match card.expand with
       | .raise w => some ("raise:" ++ w)
       | .ok ctx chains =>
